@@ -98,6 +98,8 @@ type world struct {
 	id               *ntor.NodeID
 	kB, kX, kY       int
 	ksBase, authBase map[string][32]byte // the unchanged run's outputs per side
+	ksHeld           map[string]*ntor.KeySeed
+	authHeld         map[string]*ntor.Auth
 }
 
 func mkWorld(c *mon.Case, rng *rand.Rand) *world {
@@ -177,6 +179,10 @@ func honest(c *mon.Case, r *mon.Run, w *world, useBig bool) bool {
 	// baselines for the one-bit changes, per side
 	w.ksBase = map[string][32]byte{"client": *ksC, "server": *ksS}
 	w.authBase = map[string][32]byte{"client": *auC, "server": *auS}
+	// ... and the results themselves, as handed out: later handshakes on the
+	// same key pairs must not change them
+	w.ksHeld = map[string]*ntor.KeySeed{"client": ksC, "server": ksS}
+	w.authHeld = map[string]*ntor.Auth{"client": auC, "server": auS}
 	good := true
 	bad := func(sig, format string, a ...any) {
 		good = false
@@ -299,6 +305,12 @@ func flip(c *mon.Case, r *mon.Run, w *world, side, what string, bit int) {
 	}
 	cls := side + "-" + what
 	ksBase, authBase := w.ksBase[side], w.authBase[side]
+	if h := w.ksHeld[side]; h != nil && ([32]byte(*h) != ksBase || [32]byte(*w.authHeld[side]) != authBase) {
+		c.Violation("results-of-an-earlier-handshake-changed/"+side, fmt.Sprintf("KEY_SEED/AUTH returned by the first %s handshake on these key pairs read %x / %x then and %x / %x after a later handshake on the same key pairs", side, ksBase[:], authBase[:], h[:], w.authHeld[side][:]), w.witness())
+		w.ksHeld[side] = nil
+	} else if h != nil {
+		r.Count("earlier_results_compared_again", 1)
+	}
 	wit := func() map[string]any {
 		return with(w.witness(), "side", side, "changed_input", what, "bit", bit, "changed_value", hex.EncodeToString(changed),
 			"ok", ok, "key_seed", hex.EncodeToString(ks[:]), "auth", hex.EncodeToString(au[:]),
